@@ -1,0 +1,26 @@
+//go:build !verif
+
+package avro
+
+// Verification hook points (see verifhook_on.go). With the verif build tag off
+// verifPoint is an empty function that the compiler inlines to nothing.
+const (
+	vpMapReadAfterNew = iota
+	vpMapReadBeforeAssign
+	vpMapWriteInLoop
+	vpPtrReadAfterNew
+	vpArrayReadAfterResize
+	vpArrayReadAfterItem
+	vpReadFileBeforeCallback
+	vpReadFileAfterCallback
+	vpReadFileAfterBlock
+	vpBankGet
+	vpBankBeforePut
+	vpBankAfterGrow
+	vpBufExtract
+	vpRegistryAfterLookup
+	vpSchemaRegistryAfterLookup
+	vpCount
+)
+
+func verifPoint(id int) {}
